@@ -327,8 +327,11 @@ def cmd_check(prop, tier, nruns_override=None, workers=None, selftest=True):
         return 2
     known_hits = agg['known']
     if hasattr(ad, 'witness_plans'):
-        for wp in ad.witness_plans():
-            wr = ad.execute_isolated(wp)
+        for wp in (ad.witness_plans() if not any(r_['key'].startswith(('HANG:', 'CRASH:')) for r_ in reported) else []):
+            try:
+                wr = ad.execute_isolated(wp)
+            except Exception:
+                continue      # the witness could not be executed (the tree hangs or crashes): nothing to add
             for x in wr['violations']:
                 if x['key'] in known:
                     h = known_hits.setdefault(x['key'], [0, -1])
